@@ -1,6 +1,7 @@
 package main
 
 import (
+	"fmt"
 	"strings"
 
 	"github.com/a-h/templ"
@@ -38,6 +39,7 @@ func runC04(e *emitter, tier string, seed uint64) {
 	for _, v := range xssVectors {
 		c04Emit(e, v)
 	}
+	c04Typing(e, seed, tier)
 	full := []string{"j", "J", "a", "h", "H", "t", "T", "p", "P", "s", "S", ":", "/", "\\", "?", "#", "%", "&", ";", "\t", "\n", "\r", " ", "\x00", "ſ", "é", "\xff"}
 	n := 4
 	if tier == "thorough" {
@@ -110,5 +112,48 @@ func runC04(e *emitter, tier string, seed uint64) {
 			s = sb.String()
 		}
 		c04Emit(e, s)
+	}
+}
+
+// c04Typing: "dynamic href on <a> and action on <form> can only be filled through the safe-URL type".
+// For templates that place an href/action expression attribute in every syntactic position (plain,
+// then-branch, else-branch, nested conditionals, after other attributes, multi-line), run the REAL
+// parser and generator and hand the generated Go text to the driver, which checks that the expression is
+// assigned to a templ.SafeURL variable (so a plain string does not type-check) and written through
+// templ.EscapeString.
+func c04Typing(e *emitter, seed uint64, tier string) {
+	type shape struct{ name, tmpl string }
+	shapes := []shape{
+		{"plain", `<%[1]s %[2]s={ %[3]s }>x</%[1]s>`},
+		{"after-attrs", `<%[1]s class="c" id={ "i" } %[2]s={ %[3]s } data-x>x</%[1]s>`},
+		{"then", `<%[1]s if c { %[2]s={ %[3]s } }>x</%[1]s>`},
+		{"else", `<%[1]s if c { class="a" } else { %[2]s={ %[3]s } }>x</%[1]s>`},
+		{"then-else", `<%[1]s if c { %[2]s={ %[3]s } } else { %[2]s={ %[3]s } }>x</%[1]s>`},
+		{"nested-then", `<%[1]s if c { if d { %[2]s={ %[3]s } } }>x</%[1]s>`},
+		{"nested-else", `<%[1]s if c { id="a" } else { if d { id="b" } else { %[2]s={ %[3]s } } }>x</%[1]s>`},
+		{"multiline", "<%[1]s\n\t\tclass=\"c\"\n\t\t%[2]s={ %[3]s }\n\t>x</%[1]s>"},
+		{"void-sibling", `<div><br/><%[1]s %[2]s={ %[3]s }>x</%[1]s></div>`},
+		{"in-if-node", "if c {\n\t\t<%[1]s %[2]s={ %[3]s }>x</%[1]s>\n\t}"},
+		{"in-for", "for i := 0; i < 2; i++ {\n\t\t<%[1]s if d { %[2]s={ %[3]s } }>x</%[1]s>\n\t}"},
+		{"in-call-block", "@wrap() {\n\t\t<%[1]s %[2]s={ %[3]s }>x</%[1]s>\n\t}"},
+	}
+	pairs := [][2]string{{"a", "href"}, {"form", "action"}}
+	exprs := []string{"u", "templ.URL(s)", "templ.SafeURL(s)", "p.Link"}
+	for _, sh := range shapes {
+		for _, p := range pairs {
+			for _, ex := range exprs {
+				body := fmt.Sprintf(sh.tmpl, p[0], p[1], ex)
+				src := "package x\n\ntempl wrap() {\n\t<div>{ children... }</div>\n}\n\ntempl T(c, d bool, s string, u templ.SafeURL, p P) {\n\t" + body + "\n}\n"
+				key := "typing " + sh.name + " " + p[0] + " " + ex
+				if !e.mine(key) {
+					continue
+				}
+				code, err := generateGo(src)
+				if err != nil {
+					code = "GENERATE-ERROR: " + err.Error()
+				}
+				e.emit(key, "typing", hx(sh.name+":"+p[0]+"."+p[1]), hx(ex), hx(src), hx(code))
+			}
+		}
 	}
 }
